@@ -15,6 +15,7 @@
  *    assumed only at the offset the current step visits (DESIGN.md section 3).                                                     */
 #define LEAF_FIND_CUSTOM 1     /* ghost declarations: spec/split_ghost.h */
 #include "/verif/harness/string.c"
+#include "/verif/harness/utf_stubs.h"
 
 /* ---- the external vector ---- */
 void std_vector_ST_string_ctor__v(struct std_vector_ST_string *self) { self->count = 0; self->owned = 0; }
@@ -143,10 +144,11 @@ void h_str_replace(void)
     str_ghosts(); struct ST_string s; mk_str(&s); SNAP_STR(&s, s0); struct ST_string from; mk_str(&from); SNAP_STR(&from, f0); struct ST_string to; mk_str(&to); SNAP_STR(&to, t0);
     _Bool ci = nondet_bool();
     split_ghosts(s0_c, s0_n, f0_c, f0_n, ci); long live0 = ST_LIVE;
-    RP_TN = t0_n; RP_TO = t0_c; RP_GO = nondet_size_t();
+    RP_TN = t0_n; RP_TO = t0_c; RP_GO = nondet_size_t(); RP_TAIL_OFF = 0;
     size_t total = (t0_n == f0_n) ? s0_n : REM(0);      /* reference length: size + k*(|to|-|from|) for the k occurrences found left to right */
     __CPROVER_assume(total < ST_MAXN);                    /* precondition: the result fits the library's size range */
-    GI3 = total;                                          /* instantiation hint: the terminator index of the result */
+    __CPROVER_assume(BND(0));                             /* the scan starts at offset 0 */
+    RP_TOTAL = total; GI3 = (s0_n == 0 || f0_n == 0) ? s0_n : total;                        /* GI3: instantiation hint, the terminator index of the result */
     struct ST_string res;
     ST_string_replace__rstring_rstring_case_sensitivity_t_k(&res, &s, &from, &to, ci ? CI_ : CS);
     if (ST_EXC == EXC_ST_unicode_error) {
@@ -156,12 +158,16 @@ void h_str_replace(void)
         __CPROVER_assert(STR_WF(&res), "ST_string_replace.postcondition.2: the result is a well-formed string");
         if (s0_n == 0 || f0_n == 0) {
             __CPROVER_assert(res.m_buffer.m_size == s0_n && (!(GI0 < s0_n) || res.m_buffer.m_chars[GI0] == s0_c[GI0]) && SR.calls == 0, "ST_string_replace.postcondition.3: an empty pattern (or empty text) leaves the text whole");
+            __CPROVER_assert(ST_LIVE == live0 + (res.m_buffer.m_size >= SL ? 1 : 0), "ST_string_replace.postcondition.7: exactly the result's block is allocated; nothing leaked");
         } else {
+            const char *r = res.m_buffer.m_chars; size_t tail = RP_TAIL_OFF;
             __CPROVER_assert(res.m_buffer.m_size == total, "ST_string_replace.postcondition.4: the result has length size + k*(|to| - |from|) for the k non-overlapping occurrences found left to right");
-            __CPROVER_assert(RP_OK, "ST_string_replace.postcondition.5: (recorded by the copy loop) every segment is the text up to the next occurrence followed by the replacement; the tail is copied verbatim");
+            __CPROVER_assert(SEG_OK(RP_GO, tail, r), "ST_string_replace.postcondition.5: every segment of the result is the text from a resume point up to the next occurrence, followed by the replacement (arbitrary segment, arbitrary position)");
+            __CPROVER_assert(tail <= s0_n && NXT(tail) == s0_n && POSX(tail) + (s0_n - tail) == total && (!(RP_P >= POSX(tail) && RP_P < total) || r[RP_P] == s0_c[tail + (RP_P - POSX(tail))]),
+                             "ST_string_replace.postcondition.6: after the last occurrence the rest of the text is copied verbatim and ends the result");
+            __CPROVER_assert(ST_LIVE == live0 + (res.m_buffer.m_size >= SL ? 1 : 0), "ST_string_replace.postcondition.7: exactly the result's block is allocated; nothing leaked");
         }
-        __CPROVER_assert(res.m_buffer.m_size < SL || (res.m_buffer.m_chars != s0_c && res.m_buffer.m_chars != t0_c && res.m_buffer.m_chars != f0_c), "ST_string_replace.postcondition.6: the result owns its own storage");
-        __CPROVER_assert(ST_LIVE == live0 + (res.m_buffer.m_size >= SL ? 1 : 0), "ST_string_replace.postcondition.7: exactly the result's block is allocated; nothing leaked");
+        __CPROVER_assert(res.m_buffer.m_size < SL || (res.m_buffer.m_chars != s0_c && res.m_buffer.m_chars != t0_c && res.m_buffer.m_chars != f0_c), "ST_string_replace.postcondition.10: the result owns its own storage");
     }
     __CPROVER_assert(STR_UNCHANGED(&s, s0) && STR_UNCHANGED(&from, f0) && STR_UNCHANGED(&to, t0), "ST_string_replace.postcondition.8: the text, the pattern and the replacement are not modified");
 }
